@@ -94,7 +94,7 @@ const (
 	OUBVToFP
 	OFPToFP // P1 = target width
 	OFPBits // fp -> bv (via fresh var constraint; printed as to_ieee_bv)
-	OUF      // Name = function, Sort = result
+	OUF     // Name = function, Sort = result
 )
 
 var opNames = map[Op]string{
@@ -992,6 +992,39 @@ func isPow2Mask(c uint64) (bits int, ok bool) { // c == 2^k - 1
 	return n, true
 }
 
+// intAndConst renders x & c for an int-mode term x (0 <= x < 2^w) as the sum over the runs of one-bits of c.
+func intAndConst(x string, c uint64) string {
+	if c == 0 {
+		return "0"
+	}
+	var parts []string
+	for lo := 0; lo < 64; {
+		if c&(1<<uint(lo)) == 0 {
+			lo++
+			continue
+		}
+		hi := lo
+		for hi+1 < 64 && c&(1<<uint(hi+1)) != 0 {
+			hi++
+		}
+		// bits lo..hi
+		s := x
+		if lo > 0 {
+			s = "(div " + s + " " + pow2(lo) + ")"
+		}
+		s = "(mod " + s + " " + pow2(hi-lo+1) + ")"
+		if lo > 0 {
+			s = "(* " + s + " " + pow2(lo) + ")"
+		}
+		parts = append(parts, s)
+		lo = hi + 1
+	}
+	if len(parts) == 1 {
+		return parts[0]
+	}
+	return "(+ " + strings.Join(parts, " ") + ")"
+}
+
 func (p *Printer) exprInt(t *Term, arg func(*Term) string) (string, error) {
 	w := t.Sort.W
 	M := func(s string, w int) string { return "(mod " + s + " " + pow2(w) + ")" }
@@ -1051,11 +1084,23 @@ func (p *Printer) exprInt(t *Term, arg func(*Term) string) (string, error) {
 		return "(ite (= " + a(1) + " 0) " + a(0) + " " + M(sr, w) + ")", nil
 	case OBVAnd:
 		if t.Args[1].IsConst() {
-			if k, ok := isPow2Mask(t.Args[1].C); ok {
-				return "(mod " + a(0) + " " + pow2(k) + ")", nil
-			}
+			return intAndConst(a(0), t.Args[1].C), nil
 		}
-		return "", fmt.Errorf("int-mode: bvand with non-mask operand")
+		return "", fmt.Errorf("int-mode: bvand of two symbolic operands")
+	case OBVOr:
+		if t.Args[1].IsConst() {
+			// x | C = (x & ~C) + C
+			c := t.Args[1].C
+			return "(+ " + intAndConst(a(0), ^c&mask(w)) + " " + strconv.FormatUint(c, 10) + ")", nil
+		}
+		return "", fmt.Errorf("int-mode: bvor of two symbolic operands")
+	case OBVXor:
+		if t.Args[1].IsConst() {
+			// x ^ C = (x & ~C) + (C - (x & C))
+			c := t.Args[1].C
+			return "(+ " + intAndConst(a(0), ^c&mask(w)) + " (- " + strconv.FormatUint(c, 10) + " " + intAndConst(a(0), c) + "))", nil
+		}
+		return "", fmt.Errorf("int-mode: bvxor of two symbolic operands")
 	case OBVShl:
 		if t.Args[1].IsConst() {
 			k := int(t.Args[1].C)
